@@ -24,7 +24,7 @@ RULE = ("(a) exhaustive: every boolean mask of every shape with H*W <= 6 (quick)
         "(exact=false, 1e-9): sub-sizes 3,5,6,7 and pixel scales 3/2, 3, 0.1. Iterative cases whose threshold decision lies "
         "within 1e-6 of the boundary (but not exactly on it) are skipped and counted. distinct = distinct JSON input.")
 EXHAUSTIVE = {
-    "quick": "all boolean masks of all shapes with H*W <= 6 (394 masks): over-sampled grid at uniform sub-size 1, 2 and 4; "
+    "quick": "all boolean masks of all shapes with H*W <= 6 (394 masks): over-sampled grid at uniform sub-size 1 and 2 (and 4 for every third mask); "
              "slim_for_sub_slim and binning of distinct integers at one of these sub-sizes per mask (rotating)",
     "thorough": "all boolean masks of all shapes with H*W <= 8 x uniform sub-size {1,2,4}",
 }
@@ -189,7 +189,8 @@ def gen_inputs(tier, rng):
                     i += 1
                     via = "class" if (n > 0 and i % 3) else "util"
                     ps, og = [["1", "1"], ["2", "1/2"], ["1/4", "4"]][i % 3], [["0", "0"], ["1/4", "-1/2"], ["-3/4", "2"]][(i // 3) % 3]
-                    yield {"op": "grid", "m": m, "ps": ps, "og": og, "ss": [s] * n, "via": via, "int": via == "class"}
+                    if big or s < 4 or i % 3 == 0:
+                        yield {"op": "grid", "m": m, "ps": ps, "og": og, "ss": [s] * n, "via": via, "int": via == "class"}
                     if big or i % 3 == 0:      # quick tier: index table and binning at one (rotating) sub-size per mask
                         yield {"op": "slimsub", "m": m, "ss": [s] * n, "via": via, "int": via == "class"}
                         yield {"op": "bin", "m": m, "ss": [s] * n, "arr": [str(3 * k - 7) for k in range(n * s * s)], "via": via, "int": via == "class"}
